@@ -340,4 +340,3 @@ package ext
 //@   assert before reset: rbsStep == 1
 //@   ghostset after reset: rbsStep = 2
 //@   assert before Put: rbsStep == 2
-
